@@ -1752,7 +1752,8 @@ func ExecDistinct(query *Query, current []any) ([]any, error) {
 	slice := make([]any, 0)
 	for _, item := range current {
 		sha256 := sha256.New()
-		_, err := sha256.Write([]byte(fmt.Sprintf("%v", item)))
+		// %#v quotes strings and sorts keys, so different rows never print alike
+		_, err := sha256.Write([]byte(fmt.Sprintf("%#v", item)))
 		if err != nil {
 			return nil, err
 		}
